@@ -492,23 +492,39 @@ def r5_registration(ctx, rule='C05.R5'):
     fr = ctx.anchor(TH + '::reset')
     if fr:
         kept = []
-        for s in P.call_sites_of(TH + '::reset'):
-            f = s.fn
-            # is the destination used (stored/moved) other than being dropped?
-            dl = s.dest['l']
-            used = False
+        def value_used(f, dl, depth=0):
+            """is local `dl` of f stored / moved on (other than into an explicit drop)?  A closure that returns it hands it to the adaptor
+            it was given to (`opt.and_then(|h| h.reset(d))`): then the adaptor's result in the parent is what counts"""
+            if dl == 0:
+                if f.kind == 'closure' and depth < 2:
+                    par = P.fns.get(f.parent)
+                    if par is not None:
+                        for c in par.calls():
+                            if any(peel(par.expr_operand(a, c.b, 'T'))[0] == 'agg' and peel(par.expr_operand(a, c.b, 'T'))[1] == 'closure:' + f.key for a in c.args):
+                                return value_used(par, c.dest['l'], depth + 1)
+                return True
             for b in sorted(f.reachable()):
                 for st in f.stmts(b):
                     if st['k'] == 'assign':
                         for op in _ops(st['r']):
                             if op.get('k') in ('move', 'copy') and op['p']['l'] == dl:
-                                used = True
+                                if not st['p']['pr'] and st['r']['k'] == 'use' and st['p']['l'] != 0:
+                                    if value_used(f, st['p']['l'], depth + 1) if depth < 3 else True:
+                                        return True
+                                    continue
+                                return True
                 t = f.term(b)
                 if t['k'] == 'call':
                     for op in t['args']:
                         if op.get('k') in ('move', 'copy') and op['p']['l'] == dl:
-                            used = True
-            if used or dl == 0:
+                            if strip_generics(t.get('callee') or '') in ('std::mem::drop', 'core::mem::drop'):
+                                continue
+                            return True
+            return False
+        for s in P.call_sites_of(TH + '::reset'):
+            f = s.fn
+            # is the destination used (stored/moved) other than being dropped?
+            if value_used(f, s.dest['l']):
                 kept.append(s)
         defused = False
         # on paths that re-register (call TimerQueue::add) the old handle `self` must be resolved or forgotten
